@@ -123,6 +123,10 @@ pub trait Caps: ZooComp {
     fn read_events(_st: &ReadStorage<Self>, _r: &mut ReaderId<ComponentEvent>) -> Vec<ComponentEvent> {
         vec![]
     }
+    /// Same through `channel_mut()` (exclusive access to the channel).
+    fn read_events_mut(_st: &mut WriteStorage<Self>, _r: &mut ReaderId<ComponentEvent>) -> Vec<ComponentEvent> {
+        vec![]
+    }
     fn set_emission(_st: &mut WriteStorage<Self>, _on: bool) -> bool {
         false
     }
@@ -162,6 +166,9 @@ macro_rules! caps_tracked {
         }
         fn read_events(st: &ReadStorage<Self>, r: &mut ReaderId<ComponentEvent>) -> Vec<ComponentEvent> {
             st.channel().read(r).cloned().collect()
+        }
+        fn read_events_mut(st: &mut WriteStorage<Self>, r: &mut ReaderId<ComponentEvent>) -> Vec<ComponentEvent> {
+            st.channel_mut().read(r).cloned().collect()
         }
         #[cfg(feature = "sec")]
         fn set_emission(st: &mut WriteStorage<Self>, on: bool) -> bool {
@@ -252,6 +259,25 @@ impl Caps for zoo::CDense {
     }
 }
 
+impl Caps for zoo::CPlainDense {
+    caps_join_mut!();
+    fn slice_view(st: &ReadStorage<Self>, _occupied: &BTreeSet<u32>, _probe: &[u32]) -> Option<SliceView> {
+        Some(SliceView::Dense(st.as_slice().iter().map(|c| c.check().map(|_| c.ident())).collect()))
+    }
+    fn slice_write(st: &mut WriteStorage<Self>, _index: u32, nth: usize, payload: u32) -> Option<Ident> {
+        let s = st.as_mut_slice();
+        if s.is_empty() {
+            return None;
+        }
+        let k = nth % s.len();
+        s[k].set_payload(payload);
+        Some(s[k].ident())
+    }
+}
+impl Caps for zoo::CPlainFlagDense {
+    caps_join_mut!();
+    caps_tracked!();
+}
 impl Caps for zoo::CHash {
     caps_join_mut!();
 }
@@ -458,6 +484,8 @@ struct Seq<C: Caps> {
     facts: SeqFacts,
     tag: &'static str,
     check_events: bool,
+    /// events are read through channel_mut() instead of channel()
+    drain_mut: bool,
     /// serials the model says the library destroyed in the current step
     expect_destroyed: Vec<u64>,
     _c: std::marker::PhantomData<C>,
@@ -535,6 +563,7 @@ impl<C: Caps> Seq<C> {
             facts: SeqFacts::default(),
             tag: mode.diff_tag,
             check_events: mode.check_events,
+            drain_mut: false,
             expect_destroyed: vec![],
             _c: std::marker::PhantomData,
         };
@@ -704,7 +733,7 @@ impl<C: Caps> Seq<C> {
             SOp::GetMut(sel, p, deref) => {
                 let k = self.pick(*sel);
                 let e = self.cands[k];
-                let got = match *p % 3 {
+                let got = match *p % 5 {
                     0 => {
                         let mut st = self.w().write_storage::<C>();
                         let r = st.get_mut(e).map(|mut a| {
@@ -717,9 +746,40 @@ impl<C: Caps> Seq<C> {
                         r
                     }
                     1 => gw_get_mut(self.w().write_storage::<C>(), e, if *deref { Some(*p) } else { None }),
-                    _ => {
+                    2 => {
                         let mut st = self.w().write_storage::<C>();
                         gw_get_mut(&mut st, e, if *deref { Some(*p) } else { None })
+                    }
+                    3 => {
+                        // lookup by entity through a lending join
+                        let w = self.w();
+                        let ents = w.entities();
+                        let mut st = w.write_storage::<C>();
+                        let mut j = (&ents, &mut st).lend_join();
+                        let r = j.get(e, &ents).map(|(_, mut a)| {
+                            let id = a.ident();
+                            if *deref {
+                                a.access_mut().set_payload(*p);
+                            }
+                            id
+                        });
+                        r
+                    }
+                    _ => {
+                        let w = self.w();
+                        let ents = w.entities();
+                        let mut st = w.write_storage::<C>();
+                        let mut j = (&ents, (&mut st).maybe()).lend_join();
+                        let r = j.get(e, &ents).and_then(|(_, m)| {
+                            m.map(|mut a| {
+                                let id = a.ident();
+                                if *deref {
+                                    a.access_mut().set_payload(*p);
+                                }
+                                id
+                            })
+                        });
+                        r
                     }
                 };
                 let m = if self.alive[k] { self.model.get(&e.id()).cloned() } else { None };
@@ -1335,7 +1395,7 @@ impl<C: Caps> Seq<C> {
                     None => self.facts.skipped += 1,
                     Some(id) => {
                         // the dense slice addresses values, not indices
-                        let target = if kind == Kind::Dense {
+                        let target = if kind == Kind::Dense || kind == Kind::PlainDense {
                             self.model.iter().find(|(_, v)| v.0 == id.0).map(|(k, _)| *k)
                         } else {
                             Some(idx)
@@ -1453,7 +1513,10 @@ impl<C: Caps> Seq<C> {
             return Ok(());
         }
         let kind = self.kind;
-        let evs = {
+        let evs = if self.drain_mut {
+            let mut st = self.world.as_ref().unwrap().write_storage::<C>();
+            C::read_events_mut(&mut st, self.reader.as_mut().unwrap())
+        } else {
             let st = self.world.as_ref().unwrap().read_storage::<C>();
             C::read_events(&st, self.reader.as_mut().unwrap())
         };
@@ -1674,6 +1737,7 @@ impl<C: Caps> Seq<C> {
 
 pub fn run_case<C: Caps>(case: &SeqCase, mode: &Mode) -> Result<SeqFacts, Violation> {
     let mut s = Seq::<C>::new(case, mode);
+    s.drain_mut = case.ops.len() % 2 == 1;
     s.scan()?;
     let mut after_panic = false;
     for (n, op) in case.ops.iter().enumerate() {
